@@ -28,6 +28,7 @@ type c19Case struct {
 	Seqs  [][]int  `json:"seqs,omitempty"`
 	Prog  []rcNode `json:"prog,omitempty"`
 	Mode  string   `json:"mode,omitempty"`
+	Again bool     `json:"again,omitempty"` // dump kind: binds changed through the API, then a second call dumps again
 }
 
 const c19PairBlocks = 256
@@ -50,7 +51,7 @@ func c19Gen(r *rand.Rand, tier string, idx int) any {
 				p2 = append(p2, n)
 			}
 		}
-		return c19Case{Kind: "dump", Prog: p2, Mode: pick(r, []string{"emacs", "vi"})}
+		return c19Case{Kind: "dump", Prog: p2, Mode: pick(r, []string{"emacs", "vi"}), Again: r.Intn(3) == 0}
 	}
 	c := c19Case{Kind: "random"}
 	for i := 0; i < 50; i++ {
@@ -316,13 +317,17 @@ func c19Dump(env *fw.Env, c *c19Case, o *fw.Out) {
 	cmds := shell.Keymap.Commands()
 	// expected from the live configuration
 	wantF, wantM := map[string]string{}, map[string]string{}
-	for seq, b := range shell.Config.Binds[main] {
-		if b.Macro {
-			wantM[seq] = b.Action
-		} else if _, ok := cmds[b.Action]; ok {
-			wantF[seq] = b.Action
+	liveBinds := func() {
+		wantF, wantM = map[string]string{}, map[string]string{}
+		for seq, b := range shell.Config.Binds[main] {
+			if b.Macro {
+				wantM[seq] = b.Action
+			} else if _, ok := cmds[b.Action]; ok {
+				wantF[seq] = b.Action
+			}
 		}
 	}
+	liveBinds()
 	reparse := func(text string) (*inputrc.Config, error) {
 		cfg := inputrc.NewConfig()
 		var err error
@@ -353,6 +358,7 @@ func c19Dump(env *fw.Env, c *c19Case, o *fw.Out) {
 		return strings.Join(tail(miss, 4), " "), strings.Join(tail(extra, 4), " ")
 	}
 	// functions
+	fmBad := false
 	ftext := extract(parts[1], "\"")
 	if strings.TrimSpace(ftext) == "" && len(wantF) > 20 {
 		// without its numeric argument dump-functions prints sentences, not inputrc lines: the
@@ -369,6 +375,7 @@ func c19Dump(env *fw.Env, c *c19Case, o *fw.Out) {
 		}
 	}
 	if miss, extra := diffMaps(gotF, wantF); miss != "" || extra != "" || err != nil {
+		fmBad = true
 		o.Viol("dump-functions-does-not-reparse|"+c.Mode, fmt.Sprintf("keymap %s: %d binds expected, %d re-parsed, err=%v; missing/different: %s; unexpected: %s", main, len(wantF), len(gotF), err, miss, extra))
 	}
 	// variables
@@ -400,11 +407,70 @@ func c19Dump(env *fw.Env, c *c19Case, o *fw.Out) {
 		}
 	}
 	if miss, extra := diffMaps(gotM, wantM); miss != "" || extra != "" || err != nil {
+		fmBad = true
 		o.Viol("dump-macros-does-not-reparse|"+c.Mode, fmt.Sprintf("keymap %s: %d macros expected, %d re-parsed, err=%v; missing/different: %s; unexpected: %s\ndump text: %s", main, len(wantM), len(gotM), err, miss, extra, q(clampStr(mtext, 400))))
 	}
 	o.Add("dump_binds_compared", len(wantF))
 	o.Add("dump_macros_compared", len(wantM))
 	o.Add("dump_vars_compared", len(wantV))
+	if c.Again && !fmBad && res.Returned {
+		// the application changes binds through the API between two calls (a new sequence, an
+		// existing one given another command, one removed, a new macro, a macro changed); the
+		// dumps of the next call describe the configuration as it is then
+		shell.Config.Bind(main, "\x18\x05", "kill-whole-line", false)
+		shell.Config.Bind(main, "\x18\x07", "verif-mark", false)
+		if b, ok := shell.Config.Binds[main]["\x01"]; ok && !b.Macro {
+			shell.Config.Bind(main, "\x01", "end-of-line", false)
+		}
+		delete(shell.Config.Binds[main], "\x18\x03")
+		shell.Config.Bind(main, "\x18\x06", "typed by a macro", true)
+		for seq, b := range shell.Config.Binds[main] {
+			if b.Macro && seq != "\x18\x06" && !strings.ContainsAny(seq, "\x1b1\x18\r") {
+				shell.Config.Bind(main, seq, b.Action+"!", true)
+				break
+			}
+		}
+		plan2 := steps("\x18\x01", arg, "\x18\x02", "\x18\x01", arg, "\x18\x04", "\x18\x01")
+		if c.Mode == "vi" {
+			plan2 = steps("\x1b", "\x18\x01", "1", "\x18\x02", "\x18\x01", "1", "\x18\x04", "\x18\x01")
+		}
+		res2 := s.Call(plan2, retExit)
+		if !stdFailures(o, res2, "second dump session mode="+c.Mode) {
+			return
+		}
+		env.T.Lock()
+		rawOut = string(env.T.Raw)
+		env.T.Unlock()
+		parts = strings.Split(rawOut, "\x1b]777;mark\x07")
+		if len(parts) < 8 {
+			o.Inc("dump marks of the second call not found in the output")
+			return
+		}
+		liveBinds()
+		ftext, mtext = extract(parts[len(parts)-3], "\""), extract(parts[len(parts)-2], "\"")
+		cfgF, err = reparse(ftext)
+		gotF = map[string]string{}
+		for seq, b := range cfgF.Binds["emacs"] {
+			if !b.Macro {
+				gotF[seq] = b.Action
+			}
+		}
+		if miss, extra := diffMaps(gotF, wantF); miss != "" || extra != "" || err != nil {
+			o.Viol("dump-functions-after-binds-changed-through-the-API-does-not-reparse|"+c.Mode, fmt.Sprintf("keymap %s: %d binds expected, %d re-parsed, err=%v; missing/different: %s; unexpected: %s", main, len(wantF), len(gotF), err, miss, extra))
+		}
+		cfgM, err = reparse(mtext)
+		gotM = map[string]string{}
+		for seq, b := range cfgM.Binds["emacs"] {
+			if b.Macro {
+				gotM[seq] = b.Action
+			}
+		}
+		if miss, extra := diffMaps(gotM, wantM); miss != "" || extra != "" || err != nil {
+			o.Viol("dump-macros-after-binds-changed-through-the-API-does-not-reparse|"+c.Mode, fmt.Sprintf("keymap %s: %d macros expected, %d re-parsed, err=%v; missing/different: %s; unexpected: %s", main, len(wantM), len(gotM), err, miss, extra))
+		}
+		o.Add("second_dumps_after_API_changes", 1)
+		o.Cover("dump-after-api-change|" + c.Mode)
+	}
 	if env.Verbose {
 		o.O.Trace = map[string]string{"functions": clampStr(ftext, 2000), "variables": vtext, "macros": mtext}
 	}
